@@ -156,6 +156,24 @@ def run(tier, seed, model_ok):
     progs = program_cases(tier, seed, cases[:108000:13])
     d2, v2 = run_programs(progs, model_ok)
     dis += d2; vio += v2
+    # fixed programs: registers and values that reach the instruction through `.def/.undef/.set` lines written while
+    # the DATA segment is current (they count like everywhere else)
+    import vlib
+    fx = [('.def tmp = r16\n.dseg\n.undef tmp\n.def tmp = r20\n.cseg\n ldi tmp, 2', '42e0'),
+          ('.set n = 1\n.dseg\n.set n = n + 1\nbuf: .byte 2\n.cseg\n ldi r17, n', '12e0'),
+          ('.dseg\n.def acc = r18\nv: .byte 1\n.cseg\n lds acc, v\n inc acc', '209160002395'),
+          ('.eseg\n.def ptr = r26\n.set k = 63\n.db 1\n.cseg\n adiw ptr, k', 'df96')]
+    ftrip = [('fx%d' % i, 'B', vlib.hx(t)) for i, (t, _) in enumerate(fx)]
+    fr = vlib.run_impl(ftrip)
+    if model_ok:
+        fm = vlib.run_model(ftrip, vlib.cwd_prelude())
+        for k, _, h in ftrip:
+            if fr.get(k) != fm.get(k, 'MISSING'):
+                dis.append({'source': vlib.unhx(h).decode(), 'impl': fr.get(k, '')[:120], 'model': fm.get(k, 'MISSING')[:120]})
+    for i, (t, want) in enumerate(fx):
+        a = fr.get('fx%d' % i, '')
+        if not a.startswith('OK') or E.code_of(a) != want:
+            vio.append({'what': 'instruction whose register/value comes from symbol directives written in another segment is not the ISA word', 'source': t, 'impl': a[:120], 'expected_code': want, 'key': 'program'})
     dist = Counter(c.mn for c in cases)
     return {
         'evaluations': len(cases) + len(progs), 'distinct_nontrivial': len({c.src for c in cases}),
